@@ -1,6 +1,8 @@
 import AC.Drv.C01
 import AC.Drv.C02
 import AC.Drv.C04
+import AC.Drv.C05
+import AC.Drv.C07
 import AC.Drv.C08
 import AC.Drv.C09
 import AC.Drv.C10
@@ -21,6 +23,9 @@ def dispatch (line : String) : String :=
       | "c02" => handleC02 f
       | "c04" => handleC04 f
       | "c16" => handleC16 f
+      | "c05" => handleC05 f
+      | "c17" => handleC17 f
+      | "c07" => handleC07 f
       | "c08" => handleC08 f
       | "c09" => handleC09 f
       | "c10" => handleC10 f
